@@ -33,3 +33,14 @@ package bloombits
 //@   requires genwf(b)
 //@   ensures[C16] err == nil <==> (b.nextBit == b.sections && idx < 2048)
 //@   nopanic[C16]
+
+// ---- section feeder of the matcher (C16) -----------------------------------------------------------
+// The goroutine that starts a matching run offers every section that overlaps the requested block
+// range to the pipeline: unless it is told to quit (a receive), it performs exactly one channel
+// send per section from begin/sectionSize through end/sectionSize inclusive. ($sent/$recv count
+// the channel sends/receives of the activation; what the receivers do is outside the model.)
+//@ func Matcher.run$1
+//@   requires m != nil && m.sectionSize != 0 && begin / m.sectionSize <= end / m.sectionSize && end / m.sectionSize < 18446744073709551615
+//@   ensures[C16] @allsections $recv == old($recv) ==> $sent == old($sent) + (old(end / m.sectionSize) - old(begin / m.sectionSize) + 1)
+//@   loop 1 invariant[C16] $recv == old($recv) && i >= old(begin / m.sectionSize) && i <= old(end / m.sectionSize) + 1 && $sent == old($sent) + (i - old(begin / m.sectionSize))
+//@   loop 1 invariant[C16] end == old(end) && begin == old(begin) && m == old(m) && m.sectionSize == old(m.sectionSize)
